@@ -20,13 +20,18 @@ LEVEL = "exploration"
 TECHNIQUE = "small-scope exhaustive enumeration of Accept headers x offer lists against a reference negotiation"
 DESIGN_REF = "DESIGN.md §4 C17"
 RULE = (
-    "headers = every ordered list of 1..2 items (range x q) with range from the family's set (6-7 ranges: exact, "
-    "parameterised, partial wildcard, '*', case / '_' / alias variants) and q in {absent, 0, 0.001, 0.5, 1, 1.000, x, "
-    "-1, 1.5}, every ordered list of 3 items with q in {absent, 0, 0.5} (thorough: all 9), plus spacing / case "
-    "renderings and extra malformed q forms; offers = every non-empty ordered list of <= 3 distinct offers from the "
-    "family's 5-6; 4 families. One evaluation = one (header, offer list) negotiation compared with the reference, "
-    "plus quality / membership per offer and the iteration-order law per header. non-trivial = distinct (family, "
-    "header, offers) where at least two offers are matched with positive quality or an item was dropped for its q."
+    "headers = every ordered list of 1..2 items (range x q) with range from the family's set and q in {absent, 0, 0.001, "
+    "0.5, 1, 1.000, x, -1, 1.5}, every ordered list of 3 items with q in {absent, 0, 0.5} (thorough: all), plus 12 "
+    "spacing / case renderings and 21 further q spellings (exponents, signs, underscores, hex, leading zeros, 1.001, "
+    "2, 10, 1.0 ...); offers = every non-empty ordered list of <= 3 distinct offers from the family's 5-6; 7 families: "
+    "media types (exact, level parameter, type/*, */*, case), media types with several / quoted / differently ordered "
+    "parameters and the invalid */subtype, the media types behind accept_html / accept_xhtml / accept_json, languages "
+    "(region, '_' separator, case, '*', prefix look-alikes fi / fil), languages with 3-letter primary tags, script "
+    "subtags and three subtags, charsets with codec aliases, codings. One evaluation = one (header, offer list) "
+    "negotiation compared with the reference, plus quality / membership per offer, and per header: parsed items, client "
+    "order among equals, documented total order, best, values(), item access by index / slice / key, index / find, "
+    "to_header round trip, copy constructor, MIME shortcuts. non-trivial = distinct (family, header, offers) where at "
+    "least two offers are matched with positive quality or an item was dropped for its q."
 )
 ASSUMPTIONS = [
     "range matching per family is the implementation's documented one (exact parameters for media types, "
@@ -35,6 +40,9 @@ ASSUMPTIONS = [
     "every choice is accepted",
     "membership (`in`) is only required to be False when no valid range matches and True when a range with q > 0 matches",
     "offers are well-formed and distinct; wildcard offers are not generated",
+    "q spellings are RFC tokens; '-0' / '-0.0' (in range but spelled negative) are not generated",
+    "the MIME shortcuts must be True when a range with q > 0 matches one of their media types and False when no "
+    "range matches; with only q=0 matches either answer is accepted (like membership)",
 ]
 LEVEL_TEXT = (
     "Exhaustive enumeration of short Accept-style headers in every order against every short offer list; optimality "
@@ -50,10 +58,13 @@ from werkzeug.http import parse_accept_header  # noqa: E402
 
 QS = [None, "0", "0.001", "0.5", "1", "1.000", "x", "-1", "1.5"]
 QS_SMALL = [None, "0", "0.5"]
+QS_P = [None, "0", "0.5", "1.5"]          # the parameter / subtag families
 # RFC tokens only: a q value that is not even a token (empty, non-ASCII digits, a lone quote) makes
 # parse_options_header drop the *parameter* ("invalid parts are skipped"), so the item is kept with q=1 - whether
 # that counts as "malformed q -> item ignored" is not clear from the statement, so such forms are not generated.
-QS_ODD = ["0.5x", "1e0", "inf", "+1", "00.5", "0.9999"]   # all malformed except the last two
+# ("-0" / "-0.0" are not generated either: numerically in range, spelled negative - the statement does not decide)
+QS_ODD = ["0.5x", "1e0", "inf", "+1", "1.5e0", "1_0", "0x1", "-0.5", "-1.0", "-0.001", "1.0001", "1.001", "2", "10", "1.50",
+          "00.5", "0.9999", "01", "001.000", "0.0000", "1.0"]   # the first 15 malformed / out of range, the rest valid
 
 _QRE = re.compile(r"[0-9]+(\.[0-9]+)?\Z")
 
@@ -73,8 +84,21 @@ _MSPLIT = re.compile(r"/|\s*;\s*")
 _LSPLIT = re.compile(r"[-_]")
 
 
+def _unq(v):
+    v = v.strip()
+    if len(v) >= 2 and v[0] == v[-1] == '"':
+        v = v[1:-1].replace("\\\\", "\\").replace('\\"', '"')
+    return v
+
+
 def _mime_parts(x):
-    return _MSPLIT.split(x.lower())
+    """[type, subtype, 'k=v', ...] lower-cased, parameter values unquoted (level="1" is level=1)."""
+    head, *params = x.split(";")
+    out = head.strip().lower().split("/", 1)
+    for p_ in params:
+        k, _, v = p_.partition("=")
+        out.append(k.strip().lower() + "=" + _unq(v).lower())
+    return out
 
 
 def match_mime(offer, r):
@@ -92,7 +116,7 @@ def match_mime(offer, r):
 
 
 def spec_mime(r):
-    return tuple(p != "*" for p in _MSPLIT.split(r))
+    return tuple(p != "*" for p in _mime_parts(r))
 
 
 def norm_cs(n):
@@ -126,6 +150,25 @@ FAM = {
         ranges=["utf-8", "UTF8", "latin1", "iso-8859-1", "*", "ascii"],
         offers=["utf-8", "iso-8859-1", "ascii", "UTF-8", "latin1"],
         match=lambda o, r: r == "*" or norm_cs(o) == norm_cs(r), spec=_star_spec),
+    # round 2: parameters beyond `level` (several, quoted, case), an invalid */subtype range
+    "mimep": dict(
+        cls=MIMEAccept, small=True,
+        ranges=["text/html", "text/html;level=1", 'text/html;level="1"', "text/html;charset=utf-8",
+                "text/html;level=1;charset=UTF-8", "text/*", "*/html", "*/*"],
+        offers=["text/html", "text/html;level=1", "text/html;charset=utf-8", "text/html;charset=UTF-8;level=1", "text/plain"],
+        match=match_mime, spec=spec_mime),
+    # the media types behind accept_html / accept_xhtml / accept_json
+    "mimes": dict(
+        cls=MIMEAccept, small=True,
+        ranges=["text/html", "application/xhtml+xml", "application/xml", "application/json", "application/*", "*/*", "text/*"],
+        offers=["text/html", "application/xhtml+xml", "application/xml", "application/json", "text/plain"],
+        match=match_mime, spec=spec_mime),
+    # 3-letter primary tags, script subtags, three subtags
+    "lang2": dict(
+        cls=LanguageAccept, small=True,
+        ranges=["zh", "zh-Hant", "zh-Hant-TW", "zh_hant_tw", "fil", "fi", "sr-Latn", "*"],
+        offers=["zh-Hant-TW", "zh-Hans-CN", "zh", "fil-PH", "fi", "sr-Latn-RS"],
+        match=lambda o, r: r == "*" or _LSPLIT.split(o.lower()) == _LSPLIT.split(r.lower()), spec=_star_spec),
     "coding": dict(
         cls=Accept,
         ranges=["gzip", "identity", "*", "GZIP", "br"],
@@ -197,7 +240,7 @@ def ref_best(fam, items, offers, ctx=None):
         ctx["memo_p"] = {}
     valid, memo = ctx["valid"], ctx["memo"]
     res = {None if i is None else offers[i] for i in acceptable(valid, offers, f["match"], f["spec"], memo)}
-    if fam != "lang" or None not in res:
+    if f["cls"] is not LanguageAccept or None not in res:
         return res
     res.discard(None)
     # documented fallback 1: the client's tags cut to their primary subtag, matched as plain strings
@@ -233,7 +276,15 @@ def render(items, style=0):
 
 
 def _norm_value(v):
-    return re.sub(r"\s*;\s*", ";", v)
+    """Item text up to spacing around ';' and the quoting of token-valued parameters."""
+    if ";" not in v:
+        return v
+    head, *params = v.split(";")
+    out = [head.strip()]
+    for p_ in params:
+        k, _, val = p_.partition("=")
+        out.append(k.strip() + "=" + _unq(val))
+    return ";".join(out)
 
 
 # ------------------------------------------------------------------ units
@@ -246,13 +297,16 @@ def units(tier):
     T = tier == "thorough"
     us = []
     for fam, f in FAM.items():
-        n1 = len(f["ranges"]) * len(QS)
+        small = f.get("small")
+        n1 = len(f["ranges"]) * len(QS_P if small else QS)
         us.append(("h1", fam))
         for i in range(n1):
             us.append(("h2", fam, i))
-        qs3 = QS if T else QS_SMALL
+        qs3 = (QS_P if small else QS) if T else QS_SMALL
         n3 = len(f["ranges"]) * len(qs3)
         for i in range(n3):
+            if small and not T:
+                continue          # the parameter / subtag families: 3-item headers only in thorough
             if T:
                 for j in range(0, n3, 9):
                     us.append(("h3", fam, i, (j, min(n3, j + 9)), True))
@@ -260,6 +314,69 @@ def units(tier):
                 us.append(("h3", fam, i, (0, n3), False))
         us.append(("forms", fam))
     return us
+
+
+SHORTCUTS = {"accept_html": ["text/html", "application/xhtml+xml", "application/xml"],
+             "accept_xhtml": ["application/xhtml+xml", "application/xml"], "accept_json": ["application/json"]}
+
+
+def api_failures(fam, items, hs, acc):
+    """The rest of the Accept surface, judged from the valid client items alone: documented order (specificity, then
+    quality, client order among equals), best, values(), item access, index/find, to_header round trip, copy, and
+    the MIME shortcuts. Returns [(name, want, got)]."""
+    f = FAM[fam]
+    cls = f["cls"]
+    valid = [(_norm_value(r), q) for r, q in valid_items(items)]
+    exp = sorted(valid, key=lambda x: (f["spec"](x[0]), x[1]), reverse=True)     # stable: client order among equals
+    got = [(_norm_value(v), q) for v, q in acc]
+    bad = []
+    if got != exp:
+        bad.append(("order", exp, got))
+        return bad
+    b = acc.best
+    if (None if b is None else _norm_value(b)) != (exp[0][0] if exp else None):
+        bad.append(("best", exp[0][0] if exp else None, b))
+    vals = [_norm_value(x) for x in acc.values()]
+    if vals != [v for v, _q in exp]:
+        bad.append(("values", [v for v, _q in exp], vals))
+    if exp:
+        first, last = acc[0], acc[-1]
+        if (_norm_value(first[0]), first[1]) != exp[0] or (_norm_value(last[0]), last[1]) != exp[-1]:
+            bad.append(("getitem-index", (exp[0], exp[-1]), (first, last)))
+        if [(_norm_value(v), q) for v, q in acc[0:1]] != exp[0:1] or len(acc) != len(exp):
+            bad.append(("getitem-slice", exp[0:1], acc[0:1]))
+        if acc.index(acc[0]) != 0:
+            bad.append(("index-tuple", 0, acc.index(acc[0])))
+    for o in f["offers"]:
+        want_idx = next((i for i, (r, _q) in enumerate(exp) if f["match"](o, r)), -1)
+        g = acc.find(o)
+        if g != want_idx:
+            bad.append(("find", (o, want_idx), g))
+        try:
+            gi = acc.index(o)
+        except ValueError:
+            gi = -1
+        if gi != want_idx:
+            bad.append(("index", (o, want_idx), gi))
+        if acc[o] != acc.quality(o):
+            bad.append(("getitem-key", acc.quality(o), acc[o]))
+    hdr = acc.to_header()
+    if str(acc) != hdr:
+        bad.append(("str", hdr, str(acc)))
+    back = [(_norm_value(v), q) for v, q in parse_accept_header(hdr, cls)]
+    if back != got:
+        bad.append(("to_header-roundtrip", got, (hdr, back)))
+    cp = cls(acc)
+    if list(cp) != list(acc) or cp.provided is not True or acc.provided is not True:
+        bad.append(("copy", list(acc), (list(cp), cp.provided, acc.provided)))
+    if cls is MIMEAccept:
+        for name, targets in SHORTCUTS.items():
+            must = any(q > 0 and match_mime(t_, r) for t_ in targets for r, q in valid)
+            may = any(match_mime(t_, r) for t_ in targets for r, q in valid)
+            g = getattr(acc, name)
+            if (must and g is not True) or (not may and g is not False):
+                bad.append((name, must, g))
+    return bad
 
 
 def evaluate(R, fam, items, offs, header=None, style=0, track=True):
@@ -296,6 +413,17 @@ def evaluate(R, fam, items, offs, header=None, style=0, track=True):
                                                 "what": "order", "want": sorted(groups.items()), "got": sorted(ggroups.items())})
         if any(len(g) > 1 for g in groups.values()):
             R.use("order-group>1")
+
+    # the rest of the public surface (round 2)
+    R.ev()
+    try:
+        fails = api_failures(fam, items, hs, acc)
+    except Exception as e:  # noqa: BLE001
+        fails = [("exception:" + type(e).__name__, None, repr(e))]
+    for name, want_, got_ in fails:
+        R.violation(f"{fam}:api:{name}", {"kind": "neg", "family": fam, "items": items, "header": hs, "offers": None,
+                                          "what": "api", "name": name, "want": want_, "got": got_})
+    R.use("api")
 
     # quality / membership per single offer
     for o in f["offers"]:
@@ -369,7 +497,8 @@ def run_unit(unit, R, tier):
     kind, fam = unit[0], unit[1]
     f = FAM[fam]
     offs = offer_lists(f["offers"])
-    items1 = [(r, q) for r in f["ranges"] for q in QS]
+    small = f.get("small")
+    items1 = [(r, q) for r in f["ranges"] for q in (QS_P if small else QS)]
     R.use("family:" + fam)
     if kind == "h1":
         for it in items1:
@@ -392,7 +521,7 @@ def run_unit(unit, R, tier):
         return
     if kind == "h3":
         _k, _f, i, (j0, j1), full = unit
-        qs3 = QS if full else QS_SMALL
+        qs3 = ((QS_P if small else QS) if full else QS_SMALL)
         items3 = [(r, q) for r in f["ranges"] for q in qs3]
         a = items3[i]
         for b in items3[j0:j1]:
@@ -420,7 +549,7 @@ def run_unit(unit, R, tier):
 
 def finalize(R, tier):
     need = {"family:" + f for f in FAM} | {"dropped-item", "all-items-valid", "order-group>1", "style", "odd-q",
-                                           "ambiguous-duplicate-ranges"}
+                                           "ambiguous-duplicate-ranges", "api"}
     missing = need - R.used
     if missing:
         raise core.Broken(f"vacuity: never exercised {sorted(missing)}")
@@ -468,6 +597,14 @@ def replay(rec):
         bad = gq not in qs or (not matched and gin) or (anypos and not gin) or ((gidx >= 0) != gin)
         return bad, (f"{f['cls'].__name__}: header={hs!r} offer={o!r}\nquality={gq!r} (allowed {sorted(qs)}) in={gin} "
                      f"find={gidx} matched={matched}")
+    if what == "api":
+        try:
+            fails = api_failures(fam, items, hs, acc)
+        except Exception as e:  # noqa: BLE001
+            fails = [("exception:" + type(e).__name__, None, repr(e))]
+        hit = [x for x in fails if x[0] == rec["name"]]
+        return bool(hit), (f"{f['cls'].__name__}: header={hs!r}\nparsed={list(acc)!r}\n" +
+                           "\n".join(f"{n}: want {w!r} got {g!r}" for n, w, g in (hit or fails)))
     if what in ("items", "order"):
         valid = [(r, qv) for r, q in items for qv in [qval(q)] if qv is not None]
         got_items = [(_norm_value(v), q) for v, q in acc]
